@@ -89,7 +89,10 @@ fn emit_packets(log: &Log, rigp: &OneRig, judge: &mut Judge, carry: &mut (Vec<us
             WEv::Flush => {
                 if carry.0.is_empty() { continue; }
                 let bytes = std::mem::take(&mut carry.1);
-                let lens = std::mem::take(&mut carry.0);
+                let mut lens = std::mem::take(&mut carry.0);
+                // back-pressure mode (the transport takes a few bytes per call): the calls of one packet are reported as
+                // one write - shapes are not judged there, and thousands of one-byte writes would only slow the validator
+                if rigp.out.with(|p| p.write_max) != usize::MAX { lens = vec![lens.iter().sum()]; }
                 let (frames, trail) = parse_frames(&bytes);
                 // waste ranges
                 let mut is_waste = vec![false; bytes.len()];
@@ -131,6 +134,9 @@ pub enum Op {
     Data(u32, usize),     // sid, len (may exceed 65535)
     Control(u8, u32),     // cmd, sid
     FrameWith(u8, u32, usize),
+    /// two tasks write the same `len` bytes on stream `sid` at once; the first is pre-empted right after it drew its
+    /// packet number (scheduling point wp.pkt) and the second is run to completion if the code lets it pass
+    DataPair(u32, usize),
 }
 
 pub struct Scenario {
@@ -139,6 +145,8 @@ pub struct Scenario {
     pub role_client: bool,
     pub ops: Vec<Op>,
     pub draws: Vec<Draw>,
+    /// the transport accepts at most so many bytes per write call (0 = everything): shapes cannot be judged then
+    pub partial: usize,
     pub descr: Value,
 }
 
@@ -150,6 +158,7 @@ pub async fn run_scenario(log: &Log, sched: &Sched, sc: &Scenario, seed: u64) {
     let role = if sc.role_client { "client" } else { "server" };
     let mut d = sc.descr.clone();
     d["consts"] = sc.scheme.consts(role);
+    if sc.partial > 0 { d["consts"]["partial"] = json!(true); }
     d["text"] = json!(sc.text);
     log.reset(d);
     let panics0 = PANICS.load(Ordering::SeqCst);
@@ -177,10 +186,35 @@ pub async fn run_scenario(log: &Log, sched: &Sched, sc: &Scenario, seed: u64) {
     }
 
     let rigp = if sc.role_client { rig::client_rig(factory.clone(), None) } else { rig::server_rig(factory.clone(), false) };
+    if sc.partial > 0 { rigp.out.with(|p| p.write_max = sc.partial); }
     let mut judge = Judge { subm: Vec::new(), idx: 0, off: 0, scheme_md5: factory.md5().to_string() };
     let mut carry = (Vec::new(), Vec::new());
     let mut next_sid = 1u32;
     for op in &sc.ops {
+        if let Op::DataPair(sid, len) = op {
+            let data: Vec<u8> = (0..*len).map(|_| r.next() as u8).collect();
+            for _ in 0..2 { judge.subm.push(Submitted { cmd: 2, sid: *sid, data: data.clone(), any_len: false }); }
+            ev!(log, "call", op: "write_data_pair", chunks: [json!([2, sid_cells(*sid), len]), json!([2, sid_cells(*sid), len])]);
+            { let mut g = sched.0.lock().unwrap(); g.controlled.clear(); g.parked.clear(); g.park_at.clear(); g.park_at.insert("wp.pkt"); }
+            sched.control("PA"); sched.control("PB");
+            let mut hs = Vec::new();
+            for name in ["PA", "PB"] {
+                let (s2, d2, sid2) = (rigp.sess.clone(), data.clone(), *sid);
+                hs.push(tokio::task::spawn_local(async move { anytls_rs::verif::name_task(name); s2.write_data_frame(sid2, Bytes::from(d2)).await.is_ok() }));
+                quiesce().await;
+            }
+            // the second writer first (if it was let through to its own packet number), then the pre-empted one
+            if sched.release("PB") { quiesce().await; }
+            sched.release("PA"); quiesce().await;
+            sched.release_all(); quiesce().await;
+            let mut ok = true;
+            for h in hs { ok &= matches!(h.await, Ok(true)); }
+            { let mut g = sched.0.lock().unwrap(); g.controlled.clear(); g.park_at.clear(); }
+            quiesce().await;
+            emit_packets(log, &rigp, &mut judge, &mut carry);
+            ev!(log, "ret", op: "write_data_pair", ok: ok);
+            continue;
+        }
         let (name, chunks, fut): (&str, Vec<Value>, std::pin::Pin<Box<dyn std::future::Future<Output = bool>>>) = match op {
             Op::StartClient => {
                 judge.subm.push(Submitted { cmd: 4, sid: 0, data: vec![], any_len: true });
@@ -212,6 +246,7 @@ pub async fn run_scenario(log: &Log, sched: &Sched, sc: &Scenario, seed: u64) {
                 let f = Frame::control(Command::from(*cmd), *sid);
                 ("write_frame", vec![json!([cmd, sid_cells(*sid), 0])], Box::pin(async move { s.write_control_frame(f).await.is_ok() }))
             }
+            Op::DataPair(..) => unreachable!(),
             Op::FrameWith(cmd, sid, len) => {
                 let data: Vec<u8> = (0..*len).map(|_| r.next() as u8).collect();
                 judge.subm.push(Submitted { cmd: *cmd, sid: *sid, data: data.clone(), any_len: false });
@@ -295,6 +330,7 @@ fn random_scenario(r: &mut Rng, i: u64) -> Scenario {
             1 => { ops.push(Op::OpenStream); hints.push(7); }
             2 => { let l = *r.pick(&[65535usize, 65536, 70000, 140000]); ops.push(Op::Data(1, l)); hints.push(7 + l.min(65535)); }
             3 => { let l = r.range(0, 4000) as usize; ops.push(Op::FrameWith(2, 1, l)); hints.push(7 + l); }
+            4 if role_client => { let l = r.range(1, 300) as usize; ops.push(Op::DataPair(1, l)); hints.push(7 + l); hints.push(7 + l); }
             _ => { let l = r.range(0, 600) as usize; ops.push(Op::Data(1, l)); hints.push(7 + l); }
         }
     }
@@ -306,7 +342,8 @@ fn random_scenario(r: &mut Rng, i: u64) -> Scenario {
     }
     let scheme = Scheme { stop, lines };
     let text = scheme.render(r);
-    Scenario { descr: json!({"kind": "random", "i": i}), scheme, text, role_client, ops, draws: vec![] }
+    let partial = if r.chance(1, 5) { *r.pick(&[1usize, 5, 100, 700]) } else { 0 };
+    Scenario { descr: json!({"kind": "random", "i": i, "partial": partial}), scheme, text, role_client, ops, draws: vec![], partial }
 }
 
 /// TLC-generated behaviour of MC_Padding (real Hdr): one raw line, payload P, explicit draws.
@@ -327,7 +364,7 @@ fn gen_scenario(r: &mut Rng, sc: &Value) -> Option<Scenario> {
     if p == 7 { ops.push(Op::Control(8, 0)); } else { ops.push(Op::FrameWith(2, 1, p - 7)); }
     ops.push(Op::Control(9, 0)); // the packet after the line: must be unpadded or shaped by nothing
     let text = scheme.render(r);
-    Some(Scenario { descr: json!({"kind": "gen", "abstract": sc, "k": k}), scheme, text, role_client: true, ops, draws })
+    Some(Scenario { descr: json!({"kind": "gen", "abstract": sc, "k": k}), scheme, text, role_client: true, ops, draws, partial: 0 })
 }
 
 pub fn default_scheme_scenarios() -> Vec<Scenario> {
@@ -341,13 +378,13 @@ pub fn default_scheme_scenarios() -> Vec<Scenario> {
         (4, vec![[0, 500, 1000]]), (5, vec![[0, 500, 1000]]), (6, vec![[0, 500, 1000]]), (7, vec![[0, 500, 1000]]),
     ];
     let mut v = Vec::new();
-    for variant in 0..4u64 {
+    for variant in 0..8u64 {
         let mut ops = vec![Op::StartClient, Op::OpenStream, Op::DisableBuffering, Op::Data(1, 7 + 11)];
         for j in 0..10u64 {
             ops.push(match (variant + j) % 4 { 0 => Op::Data(1, 300), 1 => Op::Control(8, 0), 2 => Op::Data(1, 2000), _ => Op::Data(1, 700) });
         }
         v.push(Scenario { descr: json!({"kind": "default-scheme", "variant": variant}), scheme: Scheme { stop: 8, lines: lines.clone() },
-                          text: text.clone(), role_client: true, ops, draws: vec![] });
+                          text: text.clone(), role_client: true, ops, draws: vec![], partial: if variant % 2 == 1 { [1usize, 5, 100, 700][((variant / 2) % 4) as usize] } else { 0 } });
     }
     v
 }
